@@ -163,7 +163,7 @@ func (ep *Endpoint) StartReader(mode IOMode) {
 				mode.OnStall(s.Now() + pause)
 			}
 			s.L.Logf("reader %s stalls for %v at offset %d", ep.Name, pause, ep.In.Read)
-		} else if s.Tape.Chance(stream, mode.PausePM) {
+		} else if !ep.DrainFast && s.Tape.Chance(stream, mode.PausePM) {
 			pause = time.Duration(s.Tape.Range(stream, 1, mode.PauseUs)) * time.Microsecond
 		}
 		s.After(pause, "read:"+ep.Name, func() {
@@ -171,6 +171,9 @@ func (ep *Endpoint) StartReader(mode IOMode) {
 				return
 			}
 			size := drawSize(s.Tape, stream, mode.Kind, ep.Peer.mssOr(ep))
+			if ep.DrainFast {
+				size = 65536
+			}
 			buf := make([]byte, size)
 			sess := ep.Sess
 			s.L.Logf("call %s Read(%d)", ep.Name, size)
